@@ -82,7 +82,7 @@ pub fn out_of_range(w: Which) -> Vec<Act> {
         msg1(&format!("STAT:{n}:PTR -1"), U::Fail(RefErr::std(-222))),
         msg1(&format!("STAT:{n}:NTR"), U::Fail(RefErr::std(-109))),
         msg1(&format!("STAT:{n}:ENAB 65535"), U::RegSet(w, Field::Enable, 65535)),
-        msg1(&format!("STAT:{n}:COND 1"), U::Fail(RefErr::std(-113))),
+        msg1(&format!("STAT:{n}:COND 1"), U::Fail(RefErr::std(-113).any_of_class())),
     ]
 }
 
